@@ -25,7 +25,7 @@ def gen_class(rng, lang: str, idx: int, target_methods: int):
     if has_kw:
         name = name + rng.choice(KEYWORDS)
     members = [("asyncPub" if rng.random() < 0.3 else "pub") for _ in range(target_methods)]
-    extras = {"py": ["priv", "dunder", "ctor", "property", "static", "field"], "ts": ["priv", "ctor", "property", "static", "field"],
+    extras = {"py": ["priv", "dunder", "ctor", "property", "static", "field", "setter"], "ts": ["priv", "ctor", "property", "static", "field", "setter"],
               "rs": ["priv", "ctor", "static", "field"]}[lang]
     for _ in range(rng.randint(0, 5)):
         members.append(rng.choice(extras))
@@ -73,6 +73,10 @@ def gen_class(rng, lang: str, idx: int, target_methods: int):
             elif m == "static":
                 add("    @staticmethod")
                 add(f"    def {nm('st_')}():")
+            elif m == "setter":
+                n = nm("val_")
+                add(f"    @{n}.{rng.choice(['setter', 'setter', 'deleter'])}")
+                add(f"    def {n}(self, value=None):")
             else:
                 add(f"    {nm('field_')} = {rng.randint(0, 5)}")
                 continue
@@ -101,13 +105,15 @@ def gen_class(rng, lang: str, idx: int, target_methods: int):
                 head = f"  get {nm('prop')}() {{"
             elif m == "static":
                 head = f"  static {nm('st')}() {{"
+            elif m == "setter":
+                head = f"  set {nm('val')}(v) {{"
             else:
                 add(f"  {nm('field')} = {rng.randint(0, 5)};")
                 continue
             add(head)
             for _ in range(rng.randint(0, 2)):
                 add(f"    this.{nm('x')} = 1;")
-            add("    return;" if m == "ctor" else "    return 1;")
+            add("    return;" if m in ("ctor", "setter") else "    return 1;")
             add("  }")
         add("};" if form == "expr" else "}")
     else:
@@ -256,7 +262,7 @@ def impl_case(args):
 def run(tier: str, seed: int, st: core.ProofStatus) -> core.Result:
     res = core.Result()
     res.rule = ("seeded files in Python / TypeScript / Rust with 1-4 classes (struct + one or two impl blocks), public-method counts swept "
-                "-2..+3 around max_methods, mixed member kinds (private, dunder, constructor, property, static, fields), blank/comment "
+                "-2..+3 around max_methods, mixed member kinds (private, dunder, constructor, property getter, property setter / deleter, static, fields), blank/comment "
                 "lines, a third of the classes declared under if / else / try / except / with / for / while / def / namespace / mod / a bare block, max_loc swept around one class's size, keyword names, check_keywords on/off, overrides for the file's language or "
                 "another one; non-trivial = a file with both a reported and an unreported class; distinct by rendered text + config")
     rng = core.sub_rng(seed, PROP, tier)
